@@ -20,12 +20,26 @@ var specialVals = [][]byte{
 
 var natBoundaries = []uint64{0, 1, 127, 128, 255, 256, 65535, 65536, 1<<32 - 1, 1 << 32, 1<<63 - 1, 1 << 63, 1<<64 - 1}
 
+var utf8Bits = [][]byte{
+	[]byte("caf"), []byte("\u00e9"), []byte("\u4e16\u754c"), []byte("\u0663"), []byte("\U0001F600"), []byte("\ufffd"), {0xef, 0xbf, 0xbd},
+	{0xef, 0xbf}, {0xc3}, {0xe4, 0xb8}, {0xed, 0xa0, 0x80}, {0xc0, 0xaf}, {0xf4, 0x90, 0x80, 0x80}, {0xff}, {0x80}, []byte("%"), []byte("."), []byte("x"),
+}
+
 // CompVal generates a component value; maxLen bounds random lengths.
 func CompVal(r *rand.Rand, maxLen int) []byte {
-	switch r.Intn(6) {
+	switch r.Intn(7) {
 	case 0:
 		v := specialVals[r.Intn(len(specialVals))]
 		return append([]byte{}, v...)
+	case 6:
+		// text that is (almost) UTF-8: multi-byte letters and digits, the replacement character itself,
+		// surrogates, over-long forms, a lead byte cut short - a formatter that looks at runes instead
+		// of bytes meets all of its special cases here
+		var b []byte
+		for n := 1 + r.Intn(4); n > 0; n-- {
+			b = append(b, utf8Bits[r.Intn(len(utf8Bits))]...)
+		}
+		return b
 	case 1:
 		return []byte{byte(r.Intn(256))}
 	case 2:
